@@ -1402,7 +1402,7 @@ def h_indexed_mergemany(specs):
     specs = [(c, tuple(map(bool, p))) for c, p in specs]
     nc = NodeCtx(['IA', 'BMA', 'BIT', 'UMA', 'IDX', 'CNT', 'UTL', 'KD', 'IDS', 'EA'], [], unwind=max(12, sum(len(p) for c, p in specs) + 2 * len(specs) + 8))
     BASE = 1 << 32
-    contents, nodes, idxs = [], [], []
+    contents, nodes, idxs, masks = [], [], [], []
     for k, (cls, pat) in enumerate(specs):
         if k == 0:
             cp, clen = nc.content0, nc.lencontent
@@ -1411,7 +1411,29 @@ def h_indexed_mergemany(specs):
             nc.m.assume(clen >= 0, clen <= 2 ** 20)
             kk = z3.BitVec('k!', 64)
             cp = nc.new_content_in(nc.m.mem, 'content_%d' % k, clen, z3.Lambda([kk], kk + k * BASE), const=True)
-        node, idx = build_indexed(nc, cls, pat, cp, clen, 'node%d' % k)
+        if cls in INDEXED:
+            node, idx = build_indexed(nc, cls, pat, cp, clen, 'node%d' % k)
+            masks.append(None)
+        else:
+            # a masked operand ('ByteMaskedArray+' / '-' = valid_when, 'BitMaskedArray++' ... = valid_when, lsb_order, 'UnmaskedArray'): entry i shows content element i
+            saved = nc.content0, nc.lencontent
+            nc.content0, nc.lencontent = cp, clen
+            try:
+                if cls.startswith('ByteMaskedArray'):
+                    node, mk = build_bytemasked(nc, pat, cls.endswith('+'), name='node%d' % k)
+                    masks.append(('bytemask', mk, cls.endswith('+')))
+                elif cls.startswith('BitMaskedArray'):
+                    vw, lsb = cls[-2] == '+', cls[-1] == '+'
+                    node, a0 = build_bitmasked(nc, pat, vw, lsb, name='node%d' % k)
+                    masks.append(('bitmask', a0, vw, lsb))
+                else:
+                    if any(pat):
+                        raise Unsupported('an UnmaskedArray has no missing entries')
+                    node, _v = build_unmasked(nc, len(pat), name='node%d' % k)
+                    masks.append(('unmasked',))
+            finally:
+                nc.content0, nc.lencontent = saved
+            idx = [BV(-1) if miss else BV(i) for i, miss in enumerate(pat)]
         contents.append((cp, clen)); nodes.append(node); idxs.append(idx)
     nc.m.assume(nc.lencontent <= 2 ** 20)
 
@@ -1424,8 +1446,12 @@ def h_indexed_mergemany(specs):
     nb = 16 * (len(nodes) - 1)
     others = nc.m.record('others', {0: (Ptr('othersbuf', 0), 8), 8: (Ptr('othersbuf', nb), 8), 16: (Ptr('othersbuf', nb), 8)}, const=True)
     nc.m.record('ret', {})
-    mangled, bits, T, option = INDEXED[specs[0][0]]
-    cands = [f for mod_ in nc.m.eng.mods for f in mod_.func_src if f.startswith('_ZNK7awkward14IndexedArrayOfI%sLb%dEE9mergemanyE' % (T, 1 if option else 0))]
+    if specs[0][0] in INDEXED:
+        mangled, bits, T, option = INDEXED[specs[0][0]]
+        pref = '_ZNK7awkward14IndexedArrayOfI%sLb%dEE9mergemanyE' % (T, 1 if option else 0)
+    else:
+        pref = '_ZNK7awkward%s9mergemanyE' % {'Byt': '15ByteMaskedArray', 'Bit': '14BitMaskedArray', 'Unm': '13UnmaskedArray'}[specs[0][0][:3]]
+    cands = [f for mod_ in nc.m.eng.mods for f in mod_.func_src if f.startswith(pref)]
     if not cands:
         raise Unsupported('mergemany not found in the IR')
     out = nc.m.call(cands[0], [Ptr('ret', 0), nodes[0], others])
@@ -1434,7 +1460,7 @@ def h_indexed_mergemany(specs):
     for k, ((cls, pat), idx) in enumerate(zip(specs, idxs)):
         for i, miss in enumerate(pat):
             want.append(NONE if miss else Elem(idx[i] + k * BASE))
-    any_option = any(INDEXED[c][3] for c, p in specs)
+    any_option = any((INDEXED[c][3] if c in INDEXED else True) for c, p in specs)
     for g, res in nodeh.decode_cases(nc, out.mem, nc.m.cell('ret', 0)):
         if res is None:
             obls.append(('a result is returned', z3.And(g, z3.Not(out.raised))))
@@ -1453,7 +1479,19 @@ def h_indexed_mergemany(specs):
             lc = max([ev(contents[k][1]), 1] + [v + 1 for v in iv])
             if lc > 100:
                 return False, 'content too long to replay', {}
-            prog += 'i64 %s %s %s ' % (fullnative.ints([1000 * k + j for j in range(lc)]), tok[cls], fullnative.ints(iv))
+            if masks[k] is None:
+                prog += 'i64 %s %s %s ' % (fullnative.ints([1000 * k + j for j in range(lc)]), tok[cls], fullnative.ints(iv))
+            else:
+                lc = max(lc, len(pat))
+                prog += 'i64 %s ' % fullnative.ints([1000 * k + j for j in range(lc)])
+                mk_ = masks[k]
+                if mk_[0] == 'bytemask':
+                    prog += 'bytemask %s %d ' % (fullnative.ints([model.eval(x, model_completion=True).as_signed_long() for x in mk_[1]]), 1 if mk_[2] else 0)
+                elif mk_[0] == 'bitmask':
+                    nbytes = (len(pat) + 7) // 8 or 1
+                    prog += 'bitmask %s %d %d %d ' % (fullnative.ints([model.eval(z3.Select(mk_[1], BV(b_)), model_completion=True).as_long() for b_ in range(nbytes)]), 1 if mk_[2] else 0, len(pat), 1 if mk_[3] else 0)
+                else:
+                    prog += 'unmasked '
             exp += [None if v < 0 else 1000 * k + v for v in iv]
         prog += 'mergemany %d' % (len(specs) - 1)
         return akrun_check(prog, exp, 'mergemany of %s' % [(c, ''.join('N' if x else 'v' for x in p)) for c, p in specs])
@@ -1467,6 +1505,11 @@ def jobs_c08(tier):
     for a in A:
         for b in A:
             js.append((h_indexed_mergemany, ((a, b),), 1800))
+    M = [('ByteMaskedArray+', (0, 1)), ('ByteMaskedArray-', (1, 0)), ('BitMaskedArray+-', (0, 1, 0)), ('BitMaskedArray-+', (1, 0)), ('UnmaskedArray', (0, 0))]
+    for k, mop in enumerate(M):
+        for a in (A[k % len(A):k % len(A) + 1] if tier == 'quick' else A[:3]):
+            js.append((h_indexed_mergemany, ((a, mop),), 1800))
+            js.append((h_indexed_mergemany, ((mop, a),), 1800))
     trip = [(A[2], A[0], A[1]), (A[0], A[2], A[3]), (A[1], A[2], A[0])] if tier == 'quick' else [(a, b, c) for a in A[:3] for b in A[:4] for c in A[:3]]
     for t in trip:
         js.append((h_indexed_mergemany, (t,), 1800))
